@@ -56,8 +56,8 @@ GGNext(g, ev) ==
   THEN IF ev.res = "OK" /\ ValidOpts(g, ev)
        THEN LET g1 == [g EXCEPT !.alive = TRUE, !.mes = ev.mes, !.def = ev.def, !.pools = Mentioned(ev.mes)]
             IN [g1 EXCEPT !.cur = RoutesFor(g, ev.mes, g.up \cap Mentioned(ev.mes))]
-       ELSE IF ev.res = "OK"   \* accepted although invalid (violation reported by C16_a): follow what the object reports
-       THEN [g EXCEPT !.alive = TRUE, !.mes = ev.mes, !.def = ev.def, !.cur = ev.routes, !.pools = SeqSet(ev.pools)]
+       ELSE IF ev.res = "OK"   \* accepted although invalid (reported by C16_a): the ghost keeps the last valid options
+       THEN g
        ELSE IF ev.op = "update"   \* rejected update: pools dialled before the failure stay until the next accepted update or Close
        THEN [g EXCEPT !.pools = @ \cup {ev.dials[i].e : i \in {j \in DOMAIN ev.dials : ev.dials[j].ok}}]
        ELSE g
